@@ -4,6 +4,7 @@
 package main
 
 import (
+	"bytes"
 	"context"
 	"encoding/json"
 	"flag"
@@ -30,6 +31,7 @@ import (
 	"github.com/LiskHQ/lisk-engine/pkg/log"
 	"github.com/LiskHQ/lisk-engine/pkg/p2p"
 	"github.com/LiskHQ/lisk-engine/pkg/statemachine"
+	"github.com/LiskHQ/lisk-engine/pkg/trie/rmt"
 	"github.com/LiskHQ/lisk-engine/pkg/txpool"
 
 	"verifharness/internal/exh"
@@ -813,30 +815,36 @@ func runABI() (rec abiRec) {
 // ---------------------------------------------------------------------------------------- acceptance
 
 type accRec struct {
-	K         string   `json:"k"`
-	NVal      int      `json:"nval"`
-	Pre       int      `json:"pre"`     // blocks on the chain before forging
-	Events    int      `json:"events"`  // scripted events of the block execution
-	Rounds    int      `json:"rounds"`  // consecutive forge+process rounds
-	Senders   int      `json:"senders"` // transaction pool: senders x PerSender transactions
-	PerSender int      `json:"persender"`
-	Limit     int      `json:"limit"`     // Genesis.MaxTransactionsSize given to the generator (0 = 15360)
-	BadEvery  int      `json:"badevery"`  // every n-th pooled transaction fails verification at generation time (0 = none)
-	Agg       bool     `json:"agg"`       // all validators certify the precommitted height first: a non-empty aggregate commit is available
-	ExecMix   bool     `json:"execmix"`   // pooled transactions execute as success / fail (included) / invalid (excluded), with and without events
-	NextVals  bool     `json:"nextvals"`  // the application returns a new validator set and thresholds from AfterTransactionsExecute
-	InvalidIn []int    `json:"invalidin"` // transactions scripted to execute as invalid found in the block
-	Forged    []bool   `json:"forged"`
-	Accepted  []bool   `json:"accepted"`
-	TipIs     []bool   `json:"tipis"`
-	NTx       []int    `json:"ntx"`     // transactions in the generated block
-	Payload   []int    `json:"payload"` // their total size
-	BadIn     []int    `json:"badin"`   // scripted-to-fail transactions found in the block
-	AggH      []uint32 `json:"aggh"`    // aggregate commit height of the generated header
-	Pooled    int      `json:"pooled"`  // processable transactions offered by the pool
-	Errs      []string `json:"errs,omitempty"`
-	Panic     string   `json:"panic,omitempty"`
-	Fail      string   `json:"fail,omitempty"`
+	K         string            `json:"k"`
+	NVal      int               `json:"nval"`
+	Pre       int               `json:"pre"`     // blocks on the chain before forging
+	Events    int               `json:"events"`  // scripted events of the block execution
+	Rounds    int               `json:"rounds"`  // consecutive forge+process rounds
+	Senders   int               `json:"senders"` // transaction pool: senders x PerSender transactions
+	PerSender int               `json:"persender"`
+	Limit     int               `json:"limit"`     // Genesis.MaxTransactionsSize given to the generator (0 = 15360)
+	BadEvery  int               `json:"badevery"`  // every n-th pooled transaction fails verification at generation time (0 = none)
+	Agg       bool              `json:"agg"`       // all validators certify the precommitted height first: a non-empty aggregate commit is available
+	ExecMix   bool              `json:"execmix"`   // pooled transactions execute as success / fail (included) / invalid (excluded), with and without events
+	NextVals  bool              `json:"nextvals"`  // the application returns a new validator set and thresholds from AfterTransactionsExecute
+	InvalidIn []int             `json:"invalidin"` // transactions scripted to execute as invalid found in the block
+	Fields    []map[string]bool `json:"fields"`    // per round: header field == value recomputed independently by the harness
+	Hdr       [][3]uint32       `json:"hdr"`       // per round: height, maxHeightPrevoted, maxHeightGenerated of the generated header
+	TipH      []uint32          `json:"tiph"`      // per round: tip height before forging
+	NodeMhp   []uint32          `json:"nodemhp"`
+	Disk      []*[3]uint32      `json:"disk"`   // per round: the generator's persisted info before forging (height, mhp, mhg)
+	AggLen    []int             `json:"agglen"` // per round: len(AggregationBits)
+	Forged    []bool            `json:"forged"`
+	Accepted  []bool            `json:"accepted"`
+	TipIs     []bool            `json:"tipis"`
+	NTx       []int             `json:"ntx"`     // transactions in the generated block
+	Payload   []int             `json:"payload"` // their total size
+	BadIn     []int             `json:"badin"`   // scripted-to-fail transactions found in the block
+	AggH      []uint32          `json:"aggh"`    // aggregate commit height of the generated header
+	Pooled    int               `json:"pooled"`  // processable transactions offered by the pool
+	Errs      []string          `json:"errs,omitempty"`
+	Panic     string            `json:"panic,omitempty"`
+	Fail      string            `json:"fail,omitempty"`
 }
 
 type captureCons struct {
@@ -894,8 +902,10 @@ func (m *genABI) ExecuteTransaction(req *labi.ExecuteTransactionRequest) (*labi.
 	case 2:
 		return &labi.ExecuteTransactionResponse{Result: labi.TxExecuteResultInvalid, Events: evs}, nil
 	case 1:
+		m.ABI.NoteTx(req.Transaction.ID)
 		return &labi.ExecuteTransactionResponse{Result: labi.TxExecuteResultFail, Events: evs}, nil
 	}
+	m.ABI.NoteTx(req.Transaction.ID)
 	return &labi.ExecuteTransactionResponse{Result: labi.TxExecuteResultSuccess, Events: evs}, nil
 }
 
@@ -919,6 +929,7 @@ func runAcc(rec accRec) accRec {
 	rec.K = "acc"
 	rec.Forged, rec.Accepted, rec.TipIs, rec.Errs, rec.Panic, rec.Fail = []bool{}, []bool{}, []bool{}, nil, "", ""
 	rec.NTx, rec.Payload, rec.BadIn, rec.AggH, rec.Pooled, rec.InvalidIn = []int{}, []int{}, []int{}, []uint32{}, 0, []int{}
+	rec.Fields, rec.Hdr, rec.TipH, rec.NodeMhp, rec.Disk, rec.AggLen = []map[string]bool{}, [][3]uint32{}, []uint32{}, []uint32{}, []*[3]uint32{}, []int{}
 	env, err := newGenEnv(rec.NVal, 2) // 2 s slots: with 1 s slots `now <= slot start + waitThreshold` always holds
 	if err != nil {
 		rec.Fail = "env: " + err.Error()
@@ -945,6 +956,10 @@ func runAcc(rec accRec) accRec {
 		}
 	}
 	seedInfos(env)
+	if n.ABI.S == nil {
+		n.ABI.S = &exh.Script{}
+	}
+	n.ABI.S.ComputeStateRoot = true // from here on the application computes the state root itself
 	if rec.NextVals {
 		if n.ABI.S == nil {
 			n.ABI.S = &exh.Script{}
@@ -995,6 +1010,7 @@ func runAcc(rec accRec) accRec {
 	pool.VerifC14Reorg()
 	rec.Pooled = len(pool.GetProcessable())
 
+	infoBefore := map[string][3]uint32{}
 	cons := &captureCons{Executer: n.Exec}
 	g := generator.NewGenerator(&generator.GeneratorParams{Consensus: cons, ABI: &genABI{ABI: n.ABI, bad: bad, exec: exec, hasEv: hasEv}, Pool: pool, Chain: n.Chain})
 	if err := g.Init(&generator.GeneratorInitParams{CTX: context.Background(), Cfg: env.cfg, Logger: env.lg, BlockchainDB: n.DB, GeneratorDB: env.gdb}); err != nil {
@@ -1003,9 +1019,15 @@ func runAcc(rec accRec) accRec {
 	}
 	for _, v := range n.Vals {
 		g.EnableGeneration(v.Addr, &generator.PlainKeys{GeneratorKey: v.Pub, GeneratorPrivateKey: v.Priv, BLSKey: v.BLS.PublicKey, BLSPrivateKey: v.BLS.PrivateKey})
+		if info, ok, _ := g.VerifC15StoredInfo(v.Addr); ok && info != nil {
+			infoBefore[string(v.Addr)] = [3]uint32{info.Height, info.MaxHeightPrevoted, info.MaxHeightGenerated}
+		}
 	}
 	for round := 0; round < rec.Rounds; round++ {
 		cons.got = nil
+		tipBefore := n.Tip().Header
+		mhpBefore, _, _ := n.Heights()
+		vhashBefore := n.PostValidatorsHash()
 		for attempt := 0; attempt < 5 && cons.got == nil && rec.Panic == ""; attempt++ {
 			func() {
 				defer func() {
@@ -1043,11 +1065,52 @@ func runAcc(rec accRec) accRec {
 			}
 		}
 		rec.InvalidIn = append(rec.InvalidIn, invalidIn)
+		// every sealed field against a value recomputed here, independently of the generator
+		ids := make([][]byte, len(blk.Transactions))
+		for i, tx := range blk.Transactions {
+			ids[i] = tx.ID
+		}
+		hd := blk.Header
+		fields := map[string]bool{}
+		fields["stateRoot"] = bytes.Equal(hd.StateRoot, exh.RootOf(tipBefore.StateRoot, ids))
+		fields["transactionRoot"] = bytes.Equal(hd.TransactionRoot, rmt.CalculateRoot(ids))
+		fields["assetRoot"] = bytes.Equal(hd.AssetRoot, blockchain.BlockAssets(blk.Assets).GetRoot())
+		fields["validatorsHash"] = bytes.Equal(hd.ValidatorsHash, vhashBefore)
+		fields["previousBlockID"] = bytes.Equal(hd.PreviousBlockID, tipBefore.ID)
+		fields["height"] = hd.Height == tipBefore.Height+1
+		fields["maxHeightPrevoted"] = hd.MaxHeightPrevoted == mhpBefore
+		gen := n.GeneratorAt(hd.Timestamp)
+		fields["generator"] = gen != nil && bytes.Equal(gen.Addr, hd.GeneratorAddress)
+		nowSlot := n.Slot(uint32(time.Now().Unix()))
+		fields["timestampSlot"] = n.Slot(hd.Timestamp) > n.Slot(tipBefore.Timestamp) && n.Slot(hd.Timestamp) <= nowSlot && n.Slot(hd.Timestamp) >= nowSlot-1
+		wantBits := 0
+		if len(hd.AggregateCommit.CertificateSignature) > 0 { // a non-empty commit: one bit per validator of the set
+			wantBits = (len(n.Vals) + 7) / 8
+		}
+		fields["aggregationBitsLen"] = len(hd.AggregateCommit.AggregationBits) == wantBits
+		// a pooled commit was made available before the first round: it must be used there (afterwards it is certified already)
+		fields["aggregateCommitPresent"] = !rec.Agg || round > 0 || len(hd.AggregateCommit.CertificateSignature) > 0
+		rec.AggLen = append(rec.AggLen, len(hd.AggregateCommit.AggregationBits))
+		rec.Hdr = append(rec.Hdr, [3]uint32{hd.Height, hd.MaxHeightPrevoted, hd.MaxHeightGenerated})
+		rec.TipH = append(rec.TipH, tipBefore.Height)
+		rec.NodeMhp = append(rec.NodeMhp, mhpBefore)
+		var disk *[3]uint32
+		if prevInfo, ok := infoBefore[string(hd.GeneratorAddress)]; ok {
+			disk = &prevInfo
+		}
+		rec.Disk = append(rec.Disk, disk)
+		infoBefore[string(hd.GeneratorAddress)] = [3]uint32{hd.Height, hd.MaxHeightPrevoted, hd.MaxHeightGenerated}
 		// the node executes the block against the same application: the same events for the same transactions
 		if n.ABI.S == nil {
 			n.ABI.S = &exh.Script{}
 		}
 		n.ABI.S.TxEvents = txEvs
+		if er, err := blockchain.CalculateEventRoot(n.ABI.S.AllEvents(len(blk.Transactions))); err == nil {
+			fields["eventRoot"] = bytes.Equal(hd.EventRoot, er)
+		} else {
+			fields["eventRoot"] = false
+		}
+		rec.Fields = append(rec.Fields, fields)
 		rec.NTx = append(rec.NTx, len(blk.Transactions))
 		rec.Payload = append(rec.Payload, size)
 		rec.BadIn = append(rec.BadIn, badIn)
